@@ -1920,6 +1920,9 @@ class ElseIf(OR):
                     yield left_value
             # If left produced no values at all, evaluate right against sources
             if not any_left:
+                # the left side did not hold for anything: whoever asks which side a row came from (an alternative
+                # selecting the conclusion) must not read the truth it had for the last row of an earlier evaluation.
+                self.left._is_false_ = True
                 right_prev = self.right._eval_parent_
                 self.right._eval_parent_ = self
                 try:
